@@ -29,6 +29,18 @@ Definition classify (w : str) : tok str :=
 Definition strip_plus (w : str) : str * str := if last_is 43 w then (removelast w, [43]) else (w, []).
 Definition find_id (w : str) (ids : list str) : option str := find (fun id => ieq id w) ids.
 
+(* the tokens of an expression: whitespace separates, each parenthesis stands alone (LicLex.spdx_tokens_split: this is what padding
+   the parentheses and str.split() compute) *)
+Definition is_paren (c : char) : bool := (c =? 40) || (c =? 41).
+Fixpoint lex_raw (s : str) : list str :=          (* the word being read comes first; empty words are dropped afterwards *)
+  match s with
+  | [] => [[]]
+  | c :: t => if is_ws c then [] :: lex_raw t
+              else if is_paren c then [] :: [c] :: lex_raw t
+              else match lex_raw t with h :: r => (c :: h) :: r | [] => [[c]] end
+  end.
+Definition spdx_tokens (s : str) : list str := filter nonemptyb (lex_raw s).
+
 Section Tables.
 Variables lics excs : list (str * str).
 
@@ -82,7 +94,6 @@ Fixpoint nest_exceeds (limit lvl : nat) (ts : list (tok str)) : bool :=
   end.
 Definition nests_deeper_than (limit : nat) (ts : list str) : bool := nest_exceeds limit 0 (map classify ts).
 
-Definition spdx_tokens (s : str) : list str := split_ws (pad s).
 
 (* the specification of the whole function: Some canonical text, or None = must be rejected *)
 Definition spec_canon (s : str) : option str :=
